@@ -29,8 +29,19 @@ func Register() {
 	tune := func(c *engine.EngineConfig, r *engine.Rand) {
 		c.OpsPerBlock = 2 + 6*r.Float()
 	}
-	engine.RegisterProfile(&engine.Profile{Name: "mixed-replicas", Tune: tune,
-		Mods: mixed(func() engine.Module { return NewReplicas() })})
+	engine.RegisterProfile(&engine.Profile{Name: "mixed-replicas",
+		Tune: func(c *engine.EngineConfig, r *engine.Rand) {
+			tune(c, r)
+			if r.Bool(0.6) {
+				// the primary runs "live": host clock = block time, chain starts at the host's now
+				c.HostFollowsChain = true
+				c.GenesisUnix = 946684800 + r.Int63n(3600)
+			}
+		},
+		// the service / feed chain of events (price feed, bindings priced through it) is long;
+		// give it a larger share of the operations here
+		Weights: map[string]int{"service": 30, "oraclefeed": 30},
+		Mods:    mixed(func() engine.Module { return NewReplicas() })})
 	engine.RegisterProfile(&engine.Profile{Name: "mixed-export", Tune: tune,
 		Mods: mixed(func() engine.Module { return NewExporter() })})
 	engine.RegisterProfile(&engine.Profile{Name: "mixed-lab", Tune: tune,
@@ -66,7 +77,8 @@ func Register() {
 		NonTrivial: func(c map[string]int64) bool { return c["C11.block_comparisons"] > 10 && c["tx.ok"] > 5 },
 		Probes: []string{"C11.block_comparisons", "C11.export_comparisons", "C11.double_exports", "fault.host_clock_skew",
 			"fault.host_clock_skew_gt_5m", "fault.host_clock_skew_gt_1h", "fault.host_clock_skew_gt_1d",
-			"fault.replica_restart", "fault.replica_crash_before_commit"},
+			"fault.replica_restart", "fault.replica_crash_before_commit",
+			"clock.host_synced_to_block_time", "oraclefeed.exchange_rate_used"},
 		Rule: "a run is non-trivial when a replica re-executed more than ten blocks containing more than five accepted transactions and every block's app hash and tx results were compared; distinct = different fingerprint of the executed (operation kind, outcome class) sequence",
 	})
 	engine.RegisterProperty(&engine.Property{
